@@ -212,6 +212,8 @@ static DIEnd endOf(Ctx &C, const Value *P, int depth) {
   bool wantAgg = To->isStructTy() || To->isArrayTy();
   const DIDerivedType *best = nullptr;
   unsigned nbest = 0;
+  std::string allNames;
+  bool sameType = true;
   for (const DINode *N : U->getElements()) {
     auto *Mem = dyn_cast<DIDerivedType>(N);
     if (!Mem || Mem->getTag() != dwarf::DW_TAG_member || Mem->isStaticMember()) continue;
@@ -226,10 +228,20 @@ static DIEnd endOf(Ctx &C, const Value *P, int depth) {
         // padding may add LLVM elements; accept only an exact match when there are several candidates
         if (best) continue;
       }
+    if (best && stripDI(best->getBaseType()) != B) sameType = false;
     best = Mem;
     nbest++;
+    if (!Mem->getName().empty()) allNames += (allNames.empty() ? "" : "|") + Mem->getName().str();
   }
-  if (nbest != 1) return e;
+  if (nbest == 0) return e;
+  if (nbest > 1) {
+    // members of one union that have the very same type cannot be told apart by the cast: name all of them
+    if (!sameType || wantAgg || allNames.empty()) return e;
+    e.D = best->getBaseType();
+    e.name = namedAncestor(src.name);
+    e.member = e.name + "." + allNames;
+    return e;
+  }
   e.D = best->getBaseType();
   e.name = namedAncestor(src.name);
   if (!best->getName().empty()) e.member = e.name + "." + best->getName().str();
